@@ -15,6 +15,7 @@ import common
 import gen_common as G
 import gen_checks as GC
 import gen_order
+import gen_order2
 
 PID = 'C08'
 FAMILY = 'Gen'
@@ -55,7 +56,7 @@ def oracle(prog, perm):
 
 def run(ctx):
     out = common.Outcome()
-    out.proof = common.proof_status_many([(FAMILY, PROPFILE)] + gen_order.PROOFS)
+    out.proof = common.proof_status_many([(FAMILY, PROPFILE)] + gen_order.PROOFS + gen_order2.PROOFS)
     pg = G.ProgGen(ctx.rng, shuffle=False)
     n = ctx.scale(30, 300)
     K = ctx.scale(2, 3)
@@ -115,7 +116,10 @@ def run(ctx):
     # (coq/GenOrder: Main_order_invariant under the decidable side condition order_ok): the permutations the harness
     # performs are checked to be admissible in the theorem's sense, order_ok is evaluated on both programs, and the
     # whole-program correspondence is run on the permuted program
-    gen_order.extra(ctx, out)
+    gen_order.extra(ctx, out, 20, 400)
+    # the same for ALL programs of the multi-currency model and their admissible permutations (coq/GenOrder2:
+    # Main2_order_invariant under order_ok2)
+    gen_order2.extra(ctx, out, 24, 400)
     out.failures.extend(finding_probes())
     return out
 
@@ -158,6 +162,8 @@ def replay(path):
     r = obj.get('replay') or {}
     if r.get('kind') == 'order':
         return gen_order.replay(obj)
+    if r.get('kind') == 'order2':
+        return gen_order2.replay(obj)
     if r.get('kind') != 'pair':
         print('replay names a proof/validation obligation, nothing to execute:', json.dumps(obj)[:600])
         return 1
